@@ -100,15 +100,22 @@ Section Statements.
 
   (* the rest of the public surface (Model/PosetExt.v): trace_element(e, direction) called from
      outside (e need not be an element), children_dict / parents_dict / descendants_dict /
-     ancestors_dict, supremum / infimum — each preserves the invariant and returns the
+     ancestors_dict, supremum / infimum, == against a poset ordered by another partial order
+     (xvalid asks for that) — each preserves the invariant and returns the
      cache-free answer [xspec_step]; [XB o] embeds the calls above *)
   Theorem C09_xstep_sound : forall s o,
-    Inv E leq s -> xvalid E s o ->
+    Inv E leq s -> xvalid E eqb s o ->
     Inv E leq (fst (xstep E leq eqb s o)) /\
     snd (xstep E leq eqb s o) = snd (xspec_step E leq eqb (els s) (use_cache s) o) /\
     els (fst (xstep E leq eqb s o)) = fst (xspec_step E leq eqb (els s) (use_cache s) o) /\
     use_cache (fst (xstep E leq eqb s o)) = use_cache s.
   Proof. exact (xstep_ok E leq eqb PO). Qed.
+
+  (* in particular == against a poset over ANOTHER comparison ([XEq2], either direction): the
+     answer is [spec_eq2]: same elements and the same order on them, which is symmetric *)
+  Theorem C09_eq_other_order_symmetric : forall la lb l1 l2,
+    NoDup l1 -> NoDup l2 -> spec_eq2 E eqb la lb l1 l2 = spec_eq2 E eqb lb la l2 l1.
+  Proof. exact (spec_eq2_sym E leq eqb PO). Qed.
 
   Theorem C09_xreachable_sound : forall ops s,
     Inv E leq s -> xvalid_history E leq eqb (els s) (use_cache s) ops ->
@@ -127,6 +134,7 @@ Section Statements.
 End Statements.
 
 Print Assumptions C09_xstep_sound.
+Print Assumptions C09_eq_other_order_symmetric.
 Print Assumptions C09_xreachable_sound.
 Print Assumptions C09_raw_sound_of_Sound.
 Print Assumptions C09_init_sound.
